@@ -1010,6 +1010,8 @@ func c11Directed(name string) (exprs, tpls []string) {
 		tpls = []string{`@("a\"b")`, `@("\w+") @("it\'s")`, "@(\"a\nb\")", `@(007) @(1.50) @(TRUE) @(Null)`, `say @("é\U0001F600")!`, `@("(") @(")") @(")(")`, `@("@contact") @@contact`}
 	case "lookups-lambdas":
 		exprs = []string{
+			// integer lookups on parenthesised terms that themselves end in one (printing must keep them from reading as a decimal)
+			`(arr.3).1`, `((arr.3)).1`, `(arr.3) .1`, `(nums.1).0`, `(arr.3).1 + 1`, `(arr[3]).1`, `(arr.3)[1]`, `(webhook.b.c).2 .d`, `(arr.3 .1)`, `((arr).3).1`,
 			`obj.a`, `OBJ.A`, `Obj . a`, `obj["a"]`, `obj [ "a" ]`, `obj["A"]`, `nums.1`, `nums["1"]`, `nums[1]`, `nums.2 + 1`, `arr.0`, `arr[0]`, `arr[-1]`, `arr . 3 .b`, `arr[3][1]`, `arr[3].1`, `arr.3[1]`,
 			`contact.fields["age"] + 1`, `results["q1"].value`, `results.q1["value"]`, `webhook.b.c[2].d`, `webhook["b"]["c"][2]["d"]`, `(obj).a`, `(obj)["a"]`, `((obj)).b.c`,
 			`array(1,2)[0]`, `array(1,2).1`, `object("a", 1).a`, `object("a", 1)["a"]`, `upper(contact.name)`, `UPPER("a")`, `Upper ( "a" )`, `fn("a")`, `(fn)("a")`, `FN("a")`, `array(upper)[0]("abc")`,
